@@ -134,7 +134,14 @@ class Roles:
 
     def _find_bound(self):
         """member initialised from <options>.max_export_batch_size or a parameter of that name"""
-        found = None
+        return self.member_initialised_from('max_export_batch_size', exclude_types=('CircularBuffer',))
+
+    def member_initialised_from(self, option_name, exclude_types=(), only_types=()):
+        """name of the member that every constructor initialises from <options>.<option_name> (or a parameter of that name); members
+        whose type contains one of exclude_types are not candidates. Deterministic: the alphabetically first when several qualify."""
+        rec = self.prog.record(self.cls) if hasattr(self, 'prog') else None
+        ftypes = {fd['name']: fd['t'] for fd in rec['fields']} if rec else {}
+        cands = set()
         for f in self.funcs:
             if f.kind != 'ctor' or f.cls != self.cls:
                 continue
@@ -143,10 +150,14 @@ class Roles:
                     if isinstance(e, dict) and 'init' in e and 'e' in e:
                         lv = leaves(f, e['e'])
                         for l in lv:
-                            if (l[0] == 'memberof' and l[1] == 'max_export_batch_size') or \
-                               (l[0] == 'param' and l[1] == 'max_export_batch_size'):
-                                found = e['init']
-        return found
+                            if (l[0] == 'memberof' and l[1] == option_name) or (l[0] == 'param' and l[1] == option_name):
+                                t = ftypes.get(e['init'], '')
+                                if any(x in t for x in exclude_types):
+                                    continue
+                                if only_types and not any(x in t for x in only_types):
+                                    continue
+                                cands.add(e['init'])
+        return sorted(cands)[0] if cands else None
 
     def is_exporter_call(self, f, n, which):
         if n['k'] != 'call' or n.get('obj') is None:
